@@ -385,6 +385,8 @@ func (g *gen) step(o hop) string {
 	return ob
 }
 
+var freshID uint64 = 100000
+
 func mangleHB(r *rng.R, x c07x.Region, tags map[string]int) c07x.Region {
 	switch r.Intn(6) {
 	case 0:
@@ -392,7 +394,11 @@ func mangleHB(r *rng.R, x c07x.Region, tags map[string]int) c07x.Region {
 		tags["malformed:term-0"]++
 	case 1:
 		if x.End != "" {
+			// single-use id: a later heartbeat of the same id would mutate the key of an item that regionTree.remove
+			// cannot find (its range does not contain its start key); the list specification cannot follow that
 			x.Start, x.End = x.End, x.Start
+			freshID++
+			x.ID = freshID
 			tags["malformed:inverted-range"]++
 		}
 	case 2:
@@ -474,7 +480,9 @@ func genCase(r *rng.R, opt *config.PersistOptions, wb bool, a c07x.Alphabet, nop
 		if malformed && r.Pct(40) {
 			x = mangleHB(r, x, c.tags)
 		}
-		sent = append(sent, x)
+		if x.End == "" || x.Start < x.End { // an inverted-range heartbeat is delivered once, never duplicated
+			sent = append(sent, x)
+		}
 		var free, used []int
 		for t := 1; t <= 3; t++ {
 			if busy[t] {
